@@ -209,7 +209,10 @@ class ObjFn(Stmts):
             if v is None: return '()', NONE
             if v is True: return 'true', BOOL
             if v is False: return 'false', BOOL
-            if isinstance(v, int): return (f'({v} : Int)' if v >= 0 else f'(-{-v} : Int)'), INT
+            if isinstance(v, int):
+                it = self.T.simple['int']
+                if v < 0 and it != 'Int': bad(e, f'negative literal {v}')
+                return (f'({v} : {it})' if v >= 0 else f'(-{-v} : {it})'), INT
             if isinstance(v, str): return chars(v), STR
             if v is Ellipsis: return '()', ELL
             bad(e, f'literal {v!r}')
@@ -303,6 +306,10 @@ class ObjFn(Stmts):
 
     def contains_(self, e, L, R, env, B):
         """`x in xs`: a character in a str / in a list of characters"""
+        if isinstance(R, ast.Set) and R.elts and all(isinstance(x, ast.Constant) and isinstance(x.value, str) for x in R.elts):
+            lt, lty = self.expr(L, env, B)
+            if lty == STR: return '([' + ', '.join(chars(x.value) for x in R.elts) + f'].contains {atom(lt)})'
+            bad(e, f'`in` a set of strs of a value of type {lty}')
         rt, rty = self.expr(R, env, B)
         if isinstance(L, ast.Constant) and isinstance(L.value, str) and len(L.value) == 1 and (rty == STR or rty == LIST(CHAR)):
             return f'({atom(rt)}.contains {char_lit(L.value)})'
@@ -511,7 +518,7 @@ class ObjFn(Stmts):
             if f.id == 'len' and len(e.args) == 1 and not e.keywords and not isinstance(e.args[0], ast.Starred):
                 t, ty = self.expr(e.args[0], env, B)
                 if ty != STR and ty[0] != 'list': bad(e, f'len of {ty}')
-                return f'({atom(t)}.length : Int)', INT
+                return f'({atom(t)}.length : {self.T.simple["int"]})', INT
             if f.id == 'str' and len(e.args) == 1 and not e.keywords and not isinstance(e.args[0], ast.Starred):
                 return self.to_str(e.args[0], env, B), STR
             if f.id in self.u.funcs:
@@ -562,7 +569,10 @@ class ObjFn(Stmts):
         if isinstance(target, ast.Name):
             x = target.id
             if x == self.STATE: bad(s, 'assignment to self')
-            text, ty = self.expr(value, env, B)
+            if isinstance(value, ast.Constant) and isinstance(value.value, str) and len(value.value) == 1 and env.get(x) in (CHAR, OPT(CHAR)):
+                text, ty = char_lit(value.value), CHAR          # a variable that holds characters keeps holding characters
+            else:
+                text, ty = self.expr(value, env, B)
             env2 = self.drop_aliases(env, x); env2[x] = ty
             if B and getattr(B[-1], '__defaults__', None) and len(B[-1].__defaults__) == 2 and text == B[-1].__defaults__[0]:
                 comp = B[-1].__defaults__[1]; B.pop()      # x = <call>: bind the name directly
@@ -627,6 +637,19 @@ class ObjFn(Stmts):
         (then the state at the time of the exception is never looked at)"""
         if s.orelse: bad(s, 'try/else')
         if s.finalbody: return self.try_finally(s, env, go, live)
+        if len(s.handlers) > 1 and all(terminates(h.body) for h in s.handlers):
+            # try: A except C1: raise … except C2: raise …   is   try: (try: A except C1: raise …) except C2: raise …
+            # (a handler's own exception is not caught by a later clause of the same statement: the classes must differ)
+            names = [ast.unparse(h.type) if h.type else '' for h in s.handlers]
+            if len(set(names)) != len(names): bad(s, 'two except clauses for one class')
+            for h in s.handlers:
+                for n in ast.walk(ast.Module(body=h.body, type_ignores=[])):
+                    if isinstance(n, ast.Raise) and n.exc is not None:
+                        x = n.exc.func if isinstance(n.exc, ast.Call) else n.exc
+                        if isinstance(x, ast.Name) and x.id in names: bad(s, 'a handler raises a class another clause catches')
+            inner = ast.copy_location(ast.Try(body=s.body, handlers=[s.handlers[0]], orelse=[], finalbody=[]), s)
+            outer = ast.copy_location(ast.Try(body=[inner], handlers=list(s.handlers[1:]), orelse=[], finalbody=[]), s)
+            return self.try_(outer, env, go, live)
         if len(s.handlers) != 1: bad(s, 'several except clauses')
         h = s.handlers[0]
         if h.name is not None or not isinstance(h.type, ast.Name) or h.type.id not in self.CAUGHT: bad(s, f'except clause {ast.unparse(h.type) if h.type else ""}')
@@ -657,7 +680,6 @@ class ObjFn(Stmts):
             epat = '(' + ', '.join(lname(x) for x in targets) + ')'
         else:
             bad(s, 'loop target')
-        if set(targets) & assigned_names(s.body, self.writes_map): bad(s, 'loop variable assigned in the body')
         vars_ = self.loop_vars(s, env, live, targets)
         vars_ = sorted(set(vars_) | (set(self.join_vars([s.body], env, live | set(vars_))) - set(targets)))
         for v in vars_:
@@ -734,19 +756,49 @@ class ObjFn(Stmts):
                 test = ast.copy_location(ast.Compare(left=ast.copy_location(ast.Name(id=alias, ctx=ast.Load()), s), ops=s.test.ops, comparators=s.test.comparators), s.test)
                 s2 = ast.copy_location(ast.If(test=test, body=s.body, orelse=s.orelse), s)
                 env1 = dict(env); env1[alias] = fty; env1[f'#alias:{obj}.{attr}'] = alias
+                keep = terminates(s.body) != terminates(s.orelse)      # exactly one branch continues: its view of the attribute stays valid
                 def go2(env2):
+                    if keep: return go(env2)
                     env3 = {k: v for k, v in env2.items() if k != alias and k != f'#alias:{obj}.{attr}'}
                     return go(env3)
                 return ('let', lname(alias), f'{self.lvar(obj)}.{field}', Stmts.if_(self, s2, env1, go2, live))
         return super().if_(s, env, go, live)
 
 class ObjStyle(Style):
+    """`binds=True`: sequencing is printed as `Except.bind c (fun x => rest)` instead of `match c with | .error e => .error e | .ok x =>
+    rest` — the same term up to unfolding `Except.bind`, but lemmas about `Except.bind` (congruence, `bind_ok`) then apply syntactically,
+    so the equality proofs can go stage by stage"""
+    def __init__(self, err, try_fn, for_fn, binds=False):
+        super().__init__(err, try_fn, for_fn)
+        self.binds = binds
+
     def extra(self, node, ind):
         pad = '  ' * ind
         if node[0] == 'foreach':
             _, fn, xs, epat, spat, body, init = node
             return [pad + f'{fn} {xs} (fun {epat} {spat} =>'] + render(body, ind + 2, self) + [pad + f'  ) {init}']
+        if node[0] == 'xbind':
+            _, pat, comp, rest = node
+            return [pad + f'Except.bind ({comp}) (fun {pat} =>'] + render(rest, ind + 1, self) + [pad + ')']
+        if node[0] == 'xjoin':
+            _, pat, comp, ty, rest = node
+            return ([pad + 'Except.bind (show Except ' + self.err + ' ' + ty + ' from'] + render(comp, ind + 2, self) + [pad + f'  ) (fun {pat} =>'] +
+                    render(rest, ind + 1, self) + [pad + ')'])
         raise AssertionError(node[0])
+
+def to_binds(node):
+    """the output tree with every `bind` / `join` node turned into its `Except.bind` form"""
+    k = node[0]
+    if k == 'raw': return node
+    if k == 'let': return ('let', node[1], node[2], to_binds(node[3]))
+    if k == 'bind': return ('xbind', node[1] if node[1] != '_' else '_', node[2], to_binds(node[3]))
+    if k == 'if': return ('if', node[1], to_binds(node[2]), to_binds(node[3]))
+    if k == 'match': return ('match', node[1], [(p, to_binds(b)) for p, b in node[2]])
+    if k == 'join': return ('xjoin', node[1], to_binds(node[2]), node[3], to_binds(node[4]))
+    if k == 'tryexpr': return ('tryexpr', to_binds(node[1]), node[2], to_binds(node[3]), node[4])
+    if k == 'forexpr': return ('forexpr', node[1], node[2], node[3], to_binds(node[4]), node[5])
+    if k == 'foreach': return ('foreach', node[1], node[2], node[3], node[4], to_binds(node[5]), node[6])
+    raise AssertionError(k)
 
 # ----------------------------------------------------------------------------- driver for one function
 
@@ -801,6 +853,7 @@ def translate(unit, cls, sig, doc, style, fn_class=ObjFn, extra_env=None, state_
     else: res = T.lean_type(rt)
     params = ''.join(f' ({lname(p)} : {T.lean_type(t)})' for p, t, _ in sig.params)
     head = '' if (sig.ctor or not sig.rec) else f' ({state_name} : {recty})'
+    if getattr(style, 'binds', False): tree = to_binds(tree)
     lines = ['  ' + l for l in prelude] + render(tree, 1, style)
     if sig.ctor:
         lines = [f'  let self : {recty} := default'] + lines
